@@ -10,6 +10,8 @@
 //! * `morsels`: morsel generation covers a source exactly once; partitions of the parallel sources
 //!   re-assemble the table; the scheduler hands every morsel to exactly one worker.
 //! * `external_sort`: `ExternalSort` with explicit runs / in-memory rest, spill files gone afterwards.
+//! * `spill_cleanup`: raw spill files and abandoned (never finalized) spillable operators: the
+//!   `SpillManager` removes every file on `cleanup()` and on drop.
 
 pub mod exec;
 pub mod model;
@@ -286,21 +288,6 @@ fn run_mode(mode: Mode, p: &Prepared, cfg: &Cfg) -> Result<Option<(Vec<Row>, boo
                 return Ok(None); // no morsels, no worker output: the initial row is the caller's business
             }
             let (first, morsels) = run_parallel(&p.rows, &p.plan, cfg, &shape).map_err(relabel)?;
-            // OS-level interleavings are sampled by repetition: the same case must give the same multiset
-            for rep in 0..2 {
-                let (again, _) = run_parallel(&p.rows, &p.plan, cfg, &shape).map_err(relabel)?;
-                let stable = match shape {
-                    ParShape::Limit(_) => again.len() == first.len(),
-                    ParShape::Agg { ngroup, .. } => compare_agg(&again, &first, ngroup).is_ok(),
-                    _ => multiset(&again) == multiset(&first),
-                };
-                if !stable {
-                    return fail(
-                        "c17/parallel/unstable",
-                        format!("repetition {} of the same parallel case gave a different result: {} vs {}", rep + 1, fmt_rows(&again), fmt_rows(&first)),
-                    );
-                }
-            }
             Ok(Some((first, morsels >= 2)))
         }
     }
@@ -310,7 +297,10 @@ fn eval(case: &Case, mode: Mode) -> CaseResult {
     let p = prepare(case);
     let mut exercised = false;
     let mut ran = false;
-    for (ci, cfg) in case.cfgs.iter().enumerate() {
+    // OS-level interleavings are sampled by repetition: every parallel configuration runs 3 times and
+    // each run must equal the reference (hence the same multiset every time)
+    let reps = if mode == Mode::Parallel { 3 } else { 1 };
+    for (ci, cfg) in case.cfgs.iter().enumerate().flat_map(|x| std::iter::repeat_n(x, reps)) {
         let Some((got, ex)) = run_mode(mode, &p, cfg)? else { continue };
         ran = true;
         // parallel LIMIT: per-worker limits, harness truncation — only validity can be demanded
@@ -332,7 +322,8 @@ fn eval(case: &Case, mode: Mode) -> CaseResult {
         }
         let chunks = split_sizes(p.rows.len(), &cfg.split).len();
         exercised |= match mode {
-            Mode::Pull | Mode::Push => chunks >= 2 || (cfg.vec_source && p.rows.len() > 2048),
+            Mode::Pull => chunks >= 2,
+            Mode::Push => if cfg.vec_source { p.rows.len() > 2048 } else { chunks >= 2 },
             Mode::Spill | Mode::Parallel => ex,
         };
     }
@@ -588,6 +579,98 @@ fn external_sort_check(mc: &MergeCase) -> CaseResult {
     ok(files >= 2 && merge_nontrivial(&parts, &rows, &kc), if mixed_key { "mixed-key" } else { "homog-key" }, hash_dbg(mc))
 }
 
+
+// ------------------------------------------------------------------------------------------------
+// Spill-file lifecycle: abandoned operators and raw files are removed by the manager
+// ------------------------------------------------------------------------------------------------
+
+#[derive(Clone, Debug, Serialize, Deserialize)]
+pub struct CleanupCase {
+    pub n: u32,
+    pub cols: Vec<ColSpec>,
+    /// 0: raw files created through the manager and dropped without delete · 1: spillable aggregate
+    /// abandoned before finalize · 2: spillable sort abandoned before finalize · 3: both, finalized
+    pub kind: u8,
+    pub files: u8,
+    pub threshold: u8,
+    pub split: Split,
+    pub explicit_cleanup: bool,
+}
+
+fn cleanup_case_strategy() -> impl Strategy<Value = CleanupCase> {
+    (prop_oneof![1 => 0u32..3, 5 => 3u32..300, 1 => 300u32..2500], cols_strategy(false), 0u8..4, 0u8..6, 0u8..6, split_strategy(), any::<bool>())
+        .prop_map(|(n, cols, kind, files, threshold, split, explicit_cleanup)| CleanupCase { n, cols, kind, files, threshold, split, explicit_cleanup })
+}
+
+fn ls(dir: &std::path::Path) -> Vec<String> {
+    let mut v: Vec<String> = std::fs::read_dir(dir).map(|d| d.filter_map(|e| e.ok().map(|e| e.file_name().to_string_lossy().to_string())).collect()).unwrap_or_default();
+    v.sort();
+    v
+}
+
+fn spill_cleanup_check(cc: &CleanupCase) -> CaseResult {
+    use grafeo_core::execution::{CollectorSink, PushOperator};
+    let rows = table_rows(cc.n as usize, &cc.cols);
+    let kinds: Vec<u8> = cc.cols.iter().map(|c| c.kind).collect();
+    let cfg = Cfg { split: cc.split.clone(), typed: false, vec_source: false, variant: 0, spill_threshold: u32::from(cc.threshold), explicit_cleanup: cc.explicit_cleanup, workers: 1, pressure: 0, par_chunk: 64 };
+    let scratch = scratch_dir();
+    let dir = scratch.path().join("spill");
+    let res = guard("spill lifecycle", || -> Result<(usize, Vec<String>, usize), String> {
+        let manager = Arc::new(SpillManager::new(dir.clone()).map_err(|e| e.to_string())?);
+        let mut sink = CollectorSink::new();
+        let mut ops: Vec<Box<dyn PushOperator>> = Vec::new();
+        if cc.kind == 0 {
+            for i in 0..cc.files {
+                let mut f = manager.create_file(if i % 2 == 0 { "raw" } else { "other" }).map_err(|e| e.to_string())?;
+                f.write_all(&vec![i; usize::from(i) * 10]).map_err(|e| e.to_string())?;
+                f.finish_write().map_err(|e| e.to_string())?;
+                // handle dropped without delete(): the manager is the owner of last resort
+            }
+        }
+        if cc.kind == 1 || cc.kind == 3 {
+            ops.extend(push_op(&Op::Agg { group: vec![0], aggs: vec![(AggFn::CountStar, None)] }, &cfg, Some(&manager)));
+        }
+        if cc.kind == 2 || cc.kind == 3 {
+            ops.extend(push_op(&Op::Sort { keys: vec![SortKeySpec { col: 0, desc: false, nulls_first: false }] }, &cfg, Some(&manager)));
+        }
+        for op in &mut ops {
+            for chunk in make_chunks(&rows, &kinds, &cfg) {
+                op.push(chunk, &mut sink).map_err(|e| e.to_string())?;
+            }
+            if cc.kind == 3 {
+                op.finalize(&mut sink).map_err(|e| e.to_string())?;
+            }
+        }
+        let before = ls(&dir).len();
+        drop(ops); // abandoned (kinds 1, 2) or finished (kind 3) operators
+        let registered;
+        if cc.explicit_cleanup {
+            manager.cleanup().map_err(|e| e.to_string())?;
+            registered = manager.active_file_count();
+            drop(manager);
+        } else {
+            registered = 0;
+            match Arc::try_unwrap(manager) {
+                Ok(m) => drop(m),
+                Err(_) => return Err("SpillManager still shared after the operators were dropped".into()),
+            }
+        }
+        Ok((before, ls(&dir), registered))
+    })?;
+    match res {
+        Err(e) => fail("c17/spill_cleanup/error", e),
+        Ok((before, left, registered)) => {
+            if !left.is_empty() {
+                return fail("c17/spill_cleanup/files-left", format!("kind {}: {} of {before} spill file(s) still on disk after {}: {:?}", cc.kind, left.len(), if cc.explicit_cleanup { "SpillManager::cleanup()" } else { "dropping the SpillManager" }, &left[..left.len().min(4)]));
+            }
+            if registered != 0 {
+                return fail("c17/spill_cleanup/still-registered", format!("active_file_count() = {registered} after cleanup()"));
+            }
+            ok(before >= 1, match cc.kind { 0 => "raw-files", 1 => "abandoned-aggregate", 2 => "abandoned-sort", _ => "finished" }, hash_dbg(cc))
+        }
+    }
+}
+
 // ------------------------------------------------------------------------------------------------
 // Morsels, parallel sources, scheduler
 // ------------------------------------------------------------------------------------------------
@@ -718,7 +801,7 @@ pub fn run(r: &mut Run) {
     r.level = "exploration";
     r.rule = "tables generated by formula from (n, per-column kind/domain/NULL share/seed): n in {0,1,2,3, <48, <700, 1023..1025, 2047..2049, 3072, 4096/4097, up to 4200 quick / 20000 thorough}; \
               chains = up to 2 of {filter, project, distinct} + optional {multi-key sort asc/desc nulls first/last | distinct-on | global/grouped aggregate of count*/count/sum/min/max/avg} + optional skip/limit + optional projection after the limit; \
-              each case carries 3 configurations (chunk split incl. empty chunks, typed/untyped vectors, source kind, operator flavours, spill threshold 0..unlimited, explicit cleanup vs drop, workers 1..16, pressure level -> morsel size 1K/16K/64K, partition chunk size) and is run under one mode per sub-check (pull / push Pipeline / push with spillable operators / ParallelPipeline + library merge, the latter 3x for schedule sampling). \
+              each case carries 3 (spill, parallel: 2) configurations (chunk split incl. empty chunks, typed/untyped vectors, source kind, operator flavours, spill threshold 0..unlimited, explicit cleanup vs drop, workers 1..16, pressure level -> morsel size 1K/16K/64K, partition chunk size) and is run under one mode per sub-check (pull / push Pipeline / push with spillable operators / ParallelPipeline + library merge, the latter 3x per configuration for schedule sampling). \
               12% of the cases have a mixed-type (Int64/Float64/String/NULL) first column. merge_* / external_sort / morsels: explicit assignment of rows to <= 8 workers. \
               non-trivial = the input spans >= 2 chunks (pull/push), wrote >= 1 spill file (spill), >= 2 morsels (parallel), >= 2 non-empty runs/partials/sets (merge_*) AND the key columns hold a duplicate or a NULL; distinct by hash of the case"
         .into();
@@ -733,19 +816,20 @@ pub fn run(r: &mut Run) {
     let thorough = r.is_thorough();
     for mode in [Mode::Pull, Mode::Push, Mode::Spill, Mode::Parallel] {
         let (q, t) = match mode {
-            Mode::Pull => (2000, 120_000),
-            Mode::Push => (2000, 120_000),
-            Mode::Spill => (1200, 60_000),
-            Mode::Parallel => (450, 30_000),
+            Mode::Pull => (3000, 50_000),
+            Mode::Push => (3000, 50_000),
+            Mode::Spill => (2000, 25_000),
+            Mode::Parallel => (700, 12_000),
         };
         let ncfg = if matches!(mode, Mode::Parallel | Mode::Spill) { 2 } else { 3 };
         let big = mode == Mode::Parallel;
         r.subcheck(mode.name(), r.cases(q, t), move || case_strategy(thorough, big, 12, ncfg), move |c: &Case| eval(c, mode));
     }
     let max_n = if thorough { 6000 } else { 1500 };
-    r.subcheck("merge_runs", r.cases(1500, 150_000), move || merge_case_strategy(10, max_n), merge_runs_check);
-    r.subcheck("merge_accumulators", r.cases(3000, 150_000), move || merge_case_strategy(10, max_n), merge_accumulators_check);
-    r.subcheck("merge_distinct", r.cases(2000, 150_000), move || merge_case_strategy(10, max_n), merge_distinct_check);
-    r.subcheck("external_sort", r.cases(1500, 80_000), move || merge_case_strategy(10, max_n), external_sort_check);
-    r.subcheck("morsels", r.cases(500, 40_000), morsel_case_strategy, morsels_check);
+    r.subcheck("merge_runs", r.cases(2000, 60_000), move || merge_case_strategy(10, max_n), merge_runs_check);
+    r.subcheck("merge_accumulators", r.cases(3000, 100_000), move || merge_case_strategy(10, max_n), merge_accumulators_check);
+    r.subcheck("merge_distinct", r.cases(2000, 60_000), move || merge_case_strategy(10, max_n), merge_distinct_check);
+    r.subcheck("external_sort", r.cases(1500, 30_000), move || merge_case_strategy(10, max_n), external_sort_check);
+    r.subcheck("spill_cleanup", r.cases(1500, 20_000), cleanup_case_strategy, spill_cleanup_check);
+    r.subcheck("morsels", r.cases(600, 15_000), morsel_case_strategy, morsels_check);
 }
